@@ -167,6 +167,7 @@ fn check_dataset(d: &[AQuad], st: &mut Stats, out: &mut Vec<Violation>) {
             k += 1;
             st.add("validated", 2);
             st.inc("transitions");
+            st.outcome("answered-true:relabelled-copy");
             let r1 = iso_call(d, ca, &copy, cb);
             let r2 = iso_call(&copy, cb, d, ca);
             if r1 != Ok(true) || r2 != Ok(true) {
@@ -290,6 +291,7 @@ fn check_dataset(d: &[AQuad], st: &mut Stats, out: &mut Vec<Violation>) {
         st.inc("transitions");
         let r1 = iso_call(d, C::Hash, &nb, C::Vec);
         let r2 = iso_call(&nb, C::BTree, d, C::Fast);
+        st.outcome(&format!("answered-false:{kind}"));
         if r1 != Ok(false) || r2 != Ok(false) {
             out.push(Violation::new(
                 format!("false-positive:{kind}"),
